@@ -178,6 +178,7 @@ func tartraceMain(args []string) int {
 	var written, refused, exempt, corruptions int64
 	var blocks [][]byte
 	fmtSeen := map[string]bool{}
+	var blockFmts []string
 	formats := map[string]int{}
 	for i, sh := range shapes {
 		raw, err := buildTar(sh, rng)
@@ -213,9 +214,10 @@ func tartraceMain(args []string) int {
 		emit(i, map[string]any{"ev": "tar", "id": i, "block": bytes2ints(blk), "accepted": acc, "result": ch[0], "rootchild": rootChild, "exempt": ex, "shape": sh, "limit": lim})
 		mimetype.SetLimit(3072)
 		// headers corrupted exhaustively: spread over the enumeration, and at least one of each writer format
-		if len(blocks) < *corrupt && ((i%(len(shapes) / *corrupt + 1)) == 0 || !fmtSeen[sh.Fmt]) && acc {
+		if len(blocks) < *corrupt && (!fmtSeen[sh.Fmt] || (len(fmtSeen) >= 3 && (i%(len(shapes) / *corrupt + 1)) == 0)) && acc {
 			fmtSeen[sh.Fmt] = true
 			blocks = append(blocks, append([]byte{}, raw...))
+			blockFmts = append(blockFmts, sh.Fmt+"/"+sh.Typ+"/"+fmt.Sprintf("%q", raw[257:265]))
 		}
 		if written%1500 == 1 {
 			rep.sample(map[string]any{"shape": sh, "name": fmt.Sprintf("%q", blk[:40]), "accepted": acc, "result": m.String()})
@@ -255,6 +257,7 @@ func tartraceMain(args []string) int {
 	rep.Extra["exempt_higher_priority"] = exempt
 	rep.Extra["single_byte_corruptions"] = corruptions
 	rep.Extra["headers_corrupted_exhaustively"] = len(blocks)
+	rep.Extra["corrupted_header_kinds"] = blockFmts
 	rep.write(*report)
 	return 0
 }
